@@ -20,7 +20,7 @@ What is modelled literally
   * `rfft` / `irfft` (padding, flips, ±√2, `* res`, the asserts) on top of the DFT *definitions*
     `rfftRe/rfftIm/irfftOddDef` that stand for `torch.fft.rfft/irfft` (trusted: torch.fft ≡ DFT),
   * `ToS2Grid.forward` / `FromS2Grid.forward` with their branch condition (FFT path vs einsum path),
-  * `SO3Grid.to_grid/from_grid` (integer `aspect_ratio`).
+  * `SO3Grid.to_grid/from_grid`, the grid sizes for a rational `aspect_ratio` incl. python's `round`.
 
 What is data, not model:  the Legendre/beta factor `shb = o3.Legendre(range(lmax+1))(cos β, |sin β|)`
 (a sympy-generated polynomial) enters as a function `P : (beta index) → (flat index l²+l+m) → K`; in the
@@ -386,18 +386,37 @@ def s2Activation (kind : Norm) (lin lout N M : Nat) (act : K → K) (P : Nat →
   | .error e => .error e
   | .ok g => fromS2Grid lout N M (nFrom kind lin) P (fun b a => act (g b a))
 
-/-! ### `SO3Grid` (integer `aspect_ratio`, `normalization = 'component'`) -/
+/-! ### `SO3Grid` (rational `aspect_ratio`, `normalization = 'component'`) -/
 
 /-- `Σ_{l ≤ lmax} (2l+1)²`, the last dimension of `D` -/
 def so3Dim : Nat → Nat
   | 0 => 1
   | l + 1 => so3Dim l + (2 * (l + 1) + 1) ^ 2
 
-/-- `(nb, na) = (2 resolution, round(2 aspect_ratio resolution))` -/
-def so3Res (resolution aspect : Nat) : Nat × Nat := (2 * resolution, 2 * aspect * resolution)
+/-- python `round(n / q)` for a non-negative rational: nearest integer, ties to the EVEN one -/
+def roundHalfEven (n q : Nat) : Nat :=
+  let d := n / q
+  let r := n % q
+  if 2 * r < q then d
+  else if q < 2 * r then d + 1
+  else if d % 2 = 0 then d else d + 1
+
+/-- `(nb, na) = (2 * resolution, round(2 * aspect_ratio * resolution))` for a rational `aspect_ratio = p / q`
+(`q > 0`; an `int` aspect ratio is `q = 1`).  The real code multiplies floats; that the float product rounds like
+the exact rational is checked per configuration by the harness (`so3resq` vs `res_alpha`). -/
+def so3ResQ (resolution p q : Nat) : Nat × Nat := (2 * resolution, roundHalfEven (2 * p * resolution) q)
+
+/-- integer `aspect_ratio` -/
+def so3Res (resolution aspect : Nat) : Nat × Nat := so3ResQ resolution aspect 1
 
 /-- `qw = _quadrature_weights(nb // 2) * nb**2 / na**2` -/
 def so3Qw (nb na b : Nat) : K := quadratureWeight (nb / 2) b * Scalar.ofNat (nb ^ 2) / Scalar.ofNat (na ^ 2)
+
+/-- the buffer `qw` of `SO3Grid(lmax, resolution, aspect_ratio = p / q)` as a function of the CONSTRUCTOR
+arguments: `nb = 2 * resolution`, `na = round(2 * aspect_ratio * resolution)`,
+`qw = _quadrature_weights(nb // 2) * nb**2 / na**2` (the ROUNDED `na`, not `2 * aspect_ratio * resolution`) -/
+def so3QwOf (resolution p q b : Nat) : K :=
+  so3Qw (so3ResQ resolution p q).1 (so3ResQ resolution p q).2 b
 
 /-- `to_grid`: `einsum("...i,abci->...abc", features, D) / D.shape[-1] ** 0.5` -/
 def so3ToGrid (dim : Nat) (D : Nat → Nat → Nat → Nat → K) (F : Nat → K) (a b c : Nat) : K :=
